@@ -78,6 +78,8 @@ type FuncExec struct {
 	guardOnly bool
 	heldOnEntry map[string]bool
 	lockOrds map[ssa.Instruction]int
+	callNames map[ssa.Instruction]string
+	callOrdStatic map[ssa.Instruction]int
 	quantsOf map[string][]quantRec
 	qfacts   []qfact
 }
@@ -330,6 +332,18 @@ func (fx *FuncExec) Run() {
 	fx.em.lines = fx.em.lines[:snap]
 	fx.discard--
 	fx.universeFrozen = true
+	// call-site ordinals in source order: rank each call among the calls to the same callee
+	byName := map[string][]ssa.Instruction{}
+	for in, n := range fx.callNames {
+		byName[n] = append(byName[n], in)
+	}
+	fx.callOrdStatic = map[ssa.Instruction]int{}
+	for _, ins := range byName {
+		sort.SliceStable(ins, func(i, j int) bool { return ins[i].Pos() < ins[j].Pos() })
+		for i, in := range ins {
+			fx.callOrdStatic[in] = i + 1
+		}
+	}
 	fx.returns = nil
 	fx.callOrd = map[string]int{}
 	fx.unlockOrd, fx.lockOrd = 0, 0
@@ -1142,7 +1156,7 @@ func (fx *FuncExec) execConvert(st *State, x *ssa.Convert) {
 		fx.def(x, Val{T: x.Type(), Sort: SF64, S: fmt.Sprintf("((_ to_fp 11 53) RNE (to_real %s))", v.S)})
 	case fs == SF64 && ts == SInt:
 		fx.def(x, Val{T: x.Type(), Sort: SInt, S: fmt.Sprintf("(f64.toint %s)", v.S)})
-		fx.em.DeclareBase("f64.toint", "(declare-fun f64.toint (F64) Int)")
+		fx.declareToInt()
 	case fs == SStr && ts == SSlice:
 		// []byte(s) / []rune(s): fresh array
 		el := to.(*types.Slice).Elem()
@@ -1585,4 +1599,11 @@ func freeVarWritten(fv *ssa.FreeVar, depth int) bool {
 		}
 	}
 	return false
+}
+
+// declareToInt: Go's float64 -> int conversion as an uninterpreted function that inverts the exact
+// int -> float64 conversion on the range where every integer is representable (|i| < 2^53).
+func (fx *FuncExec) declareToInt() {
+	fx.em.DeclareBase("f64.toint", "(declare-fun f64.toint (F64) Int)")
+	fx.em.DeclareBase("f64.toint.ax", "(assert (forall ((i Int)) (! (=> (and (< (- 9007199254740992) i) (< i 9007199254740992)) (= (f64.toint ((_ to_fp 11 53) RNE (to_real i))) i)) :pattern ((f64.toint ((_ to_fp 11 53) RNE (to_real i)))))))")
 }
